@@ -22,7 +22,7 @@ def call(world, eng, p, h, args, kws):
     allargs = list(args) + [v for _, v in sorted(kws.items())]
     p.calls.append((n, tuple(eng.to_val(p, a) for a in allargs), tuple(sorted(kws))))
     short = n.split('.')[-1]
-    if short in ('compressobj', 'decompressobj', 'ZstdCompressor', 'ZstdDecompressor', 'getincrementalencoder', 'getincrementaldecoder'):
+    if short in ('compressobj', 'decompressobj', 'ZstdCompressor', 'ZstdDecompressor', 'getincrementalencoder', 'getincrementaldecoder', 'ParquetWriter', 'ParquetFile'):
         k = p.ghost.get('n_libobjs', 0); p.ghost['n_libobjs'] = k + 1
         return [(p, Host('opaque', name=f'{short}#{k}', lib=n, created_by=(n, tuple(allargs), dict(kws))))]
     return [(p, SVal(opaque_result(eng, p, n.replace('.', '_'), allargs)))]
@@ -58,4 +58,15 @@ def str_codec(eng, p, o, name, args, kws):
     trusted(f'str.encode / bytes.decode: one-shot codec')
     targs = [eng.to_val(p, o)] + [eng.to_val(p, a) for a in args]
     p.calls.append((f'oneshot.{name}', tuple(targs)))
-    return [(p, SVal(Function(f'oneshot_{name}', *([Val] * len(targs)), Val)(*targs)))]
+    if name == 'decode':
+        from z3 import StringSort
+        return [(p, SStr(Function('oneshot_decode', *([Val] * len(targs)), StringSort())(*targs)))]
+    return [(p, SBytes(Function('oneshot_encode', *([Val] * len(targs)), Bytes)(*targs)))]
+
+
+def call_object(world, eng, p, h, args, kws):
+    """calling a library factory object (e.g. codecs.getincrementalencoder(enc)()) yields a new opaque object"""
+    k = p.ghost.get('n_libobjs', 0); p.ghost['n_libobjs'] = k + 1
+    allargs = list(args) + [v for _, v in sorted(kws.items())]
+    p.calls.append((f'{h.name}()', tuple(eng.to_val(p, a) for a in allargs)))
+    return [(p, Host('opaque', name=f'{h.name}()#{k}', lib=getattr(h, 'lib', ''), parent=h))]
